@@ -1261,8 +1261,12 @@ NEW = [
       edits=P2 + [(T, '\t\tif identityValue == "" {\n\t\t\treturn fmt.Errorf("trust policy statement %q has trusted identity %q without an identity value", policyName, identity)\n\t\t}\n', '\t\tif identityValue == "" {\n\t\t\tcontinue\n\t\t}\n')]),
  dict(name='guard-overlap-same-index-only', expect='flagged(identity/overlap/all-ordered-pairs)',
       edits=P2 + [(T, '\t\t\tif i == j {\n\t\t\t\tcontinue\n\t\t\t}\n', '\t\t\tif i >= j {\n\t\t\t\tcontinue\n\t\t\t}\n')]),
- dict(name='merged-scope-format-condition-drops-domain', expect='flagged(scope-format/domain-non-empty)',
-      edits=P2 + [(O, '\tif !found || domain == "" || repository == "" ||', '\tif !found || repository == "" ||')]),
+ dict(name='merged-scope-format-condition-drops-domain', expect='silent',
+      edits=P2 + [(O, '\tif !found || domain == "" || repository == "" ||', '\tif !found || repository == "" ||')],
+      why='silent (was labelled flagged): an equivalent mutant — the constant domain pattern does not match "", so the empty domain is still rejected with the same error by !domainRegexp.MatchString(domain); the broken counterpart is merged-scope-format-drops-domain-pattern-admits-empty'),
+ dict(name='merged-scope-format-drops-domain-pattern-admits-empty', expect='flagged(scope-format/domain-non-empty)',
+      edits=P2 + [(O, '\tif !found || domain == "" || repository == "" ||', '\tif !found || repository == "" ||'),
+                  (O, 'regexp.MustCompile(`^(?:[a-zA-Z0-9]|[a-zA-Z0-9][a-zA-Z0-9-]*[a-zA-Z0-9])(?:(?:\\.', 'regexp.MustCompile(`^(?:|[a-zA-Z0-9]|[a-zA-Z0-9][a-zA-Z0-9-]*[a-zA-Z0-9])(?:(?:\\.')]),
  # ---- the range value in the uniqueness loop -------------------------------------------------------------------------
  dict(name='benign-unique-range-value', file=O, expect='silent',
       find='\tfor key := range registryScopeCount {\n\t\tif registryScopeCount[key] > 1 {', replace='\tfor key, count := range registryScopeCount {\n\t\tif count > 1 {'),
@@ -1495,10 +1499,18 @@ NEW2 += [
       edits=[(T, TYPE_IF, TYPE_SWITCH.replace('\t\tdefault:\n\t\t\treturn fmt', '\t\tcase "":\n\t\t\treturn fmt'))]),
  dict(name='store-type-helper-prefix', expect='flagged(store/known-type)',
       edits=[(T, TYPE_HELPER_BODY, '\tfor _, p := range truststore.Types {\n\t\tif strings.HasPrefix(s, string(p)) {\n\t\t\treturn true\n\t\t}\n\t}\n\treturn false\n')]),
- dict(name='store-split-helper-error-dropped', expect='flagged(store/separator)',
-      edits=SPLIT + [(T, '\t\tstoreType, namedStore, err := splitTrustStore(policyName, trustStore)\n\t\tif err != nil {\n\t\t\treturn err\n\t\t}\n', '\t\tstoreType, namedStore, _ := splitTrustStore(policyName, trustStore)\n')]),
- dict(name='store-split-helper-tolerates-missing-separator', expect='flagged(store/separator)',
-      edits=SPLIT + [(T, '\tif !found {\n\t\treturn "", "", fmt.Errorf("trust policy statement %q has malformed', '\tif !found && storeType == "" {\n\t\treturn "", "", fmt.Errorf("trust policy statement %q has malformed')]),
+ dict(name='store-split-helper-error-dropped', expect='silent',
+      edits=SPLIT + [(T, '\t\tstoreType, namedStore, err := splitTrustStore(policyName, trustStore)\n\t\tif err != nil {\n\t\t\treturn err\n\t\t}\n', '\t\tstoreType, namedStore, _ := splitTrustStore(policyName, trustStore)\n')],
+      why='silent (was labelled flagged): equivalent for the property — an entry without ":" yields the name "", which the certified file-name validator rejects (only the error text differs); broken counterpart: store-split-helper-error-dropped-default-name'),
+ dict(name='store-split-helper-tolerates-missing-separator', expect='silent',
+      edits=SPLIT + [(T, '\tif !found {\n\t\treturn "", "", fmt.Errorf("trust policy statement %q has malformed', '\tif !found && storeType == "" {\n\t\treturn "", "", fmt.Errorf("trust policy statement %q has malformed')],
+      why='silent (was labelled flagged): equivalent for the property — strings.Cut hands back the name "" for an entry without ":", rejected by the certified file-name validator; broken counterpart: store-split-helper-tolerates-missing-separator-and-empty-name'),
+ dict(name='store-split-helper-error-dropped-default-name', expect='flagged(store/)',
+      edits=SPLIT + [(T, '\t\tstoreType, namedStore, err := splitTrustStore(policyName, trustStore)\n\t\tif err != nil {\n\t\t\treturn err\n\t\t}\n', '\t\tstoreType, namedStore, _ := splitTrustStore(policyName, trustStore)\n'),
+                     (T, '\tif !found {\n\t\treturn "", "", fmt.Errorf("trust policy statement %q has malformed', '\tif !found {\n\t\treturn trustStore, "default", fmt.Errorf("trust policy statement %q has malformed')]),
+ dict(name='store-split-helper-tolerates-missing-separator-and-empty-name', expect='flagged(store/)',
+      edits=SPLIT + [(T, '\tif !found {\n\t\treturn "", "", fmt.Errorf("trust policy statement %q has malformed', '\tif !found && storeType == "" {\n\t\treturn "", "", fmt.Errorf("trust policy statement %q has malformed'),
+                     (T, '\t\tif !file.IsValidFileName(namedStore) {', '\t\tif namedStore != "" && !file.IsValidFileName(namedStore) {')]),
  dict(name='store-name-wrapper-loosened', expect='flagged(store/safe-name)',
       edits=NAME_WRAP + [(T, '\treturn file.IsValidFileName(s)\n', '\treturn strings.HasPrefix(s, "_") || file.IsValidFileName(s)\n')]),
  dict(name='store-name-wrapper-on-type-part', expect='flagged(store/safe-name)',
@@ -1816,3 +1828,53 @@ NEW3B = [
       edits=[TS_SPLIT_HELPER[0], TS_SPLIT_HELPER[1], (T, TS_HELPER_AT, TS_NAMES_HELPER.replace(TS_NAME + '\t}\n', TS_NAME + '\t\tbreak\n\t}\n') + TS_HELPER_AT)]),
 ]
 VARIANTS += NEW3B
+
+# ---- fourth pass: a guard that another guard of the same exit subsumes (contract of strings.Cut, language of a constant pattern) ----
+FMT_CUT = '\tdomain, repository, found := strings.Cut(scope, "/")\n\tif !found {\n\t\treturn fmt.Errorf(errorMessage, scope)\n\t}\n'
+FMT_COND = '\tif domain == "" || repository == "" || !domainRegexp.MatchString(domain) || !repositoryRegexp.MatchString(repository) {\n'
+FMT_NOFOUND = '\tdomain, repository, _ := strings.Cut(scope, "/")\n'
+DOM_PAT = 'domainRegexp := regexp.MustCompile(`^(?:[a-zA-Z0-9]|'
+REPO_PAT = 'repositoryRegexp := regexp.MustCompile(`^[a-z0-9]+(?:'
+TS_CUT = '\t\tstoreType, namedStore, found := strings.Cut(trustStore, ":")\n\t\tif !found {\n\t\t\treturn fmt.Errorf("trust policy statement %q has malformed trust store value %q. The required format is <TrustStoreType>:<TrustStoreName>", policyName, trustStore)\n\t\t}\n'
+TS_NOFOUND = '\t\tstoreType, namedStore, _ := strings.Cut(trustStore, ":")\n'
+NEW4 = [
+ dict(name='benign-scope-found-subsumed-by-repository-guard', expect='silent', edits=[(O, FMT_CUT, FMT_NOFOUND)],
+      why='silent: without "/" strings.Cut hands back (scope, ""), which repository == "" rejects with the same error'),
+ dict(name='benign-scope-guards-subsumed-by-patterns', expect='silent',
+      edits=[(O, FMT_CUT, FMT_NOFOUND), (O, FMT_COND, '\tif !domainRegexp.MatchString(domain) || !repositoryRegexp.MatchString(repository) {\n')],
+      why='silent: neither constant pattern matches "", so the empty halves (and with the second one the missing separator) are rejected by the pattern tests'),
+ dict(name='benign-scope-halves-len-spelling', expect='silent',
+      edits=[(O, FMT_CUT, FMT_NOFOUND), (O, FMT_COND, '\tif len(domain) == 0 || len(repository) < 1 || !domainRegexp.MatchString(domain) || !repositoryRegexp.MatchString(repository) {\n')]),
+ dict(name='benign-scope-index-positive', expect='silent',
+      edits=[(O, FMT_CUT, '\ti := strings.Index(scope, "/")\n\tif i <= 0 {\n\t\treturn fmt.Errorf(errorMessage, scope)\n\t}\n\tdomain, repository := scope[:i], scope[i+1:]\n'),
+             (O, FMT_COND, '\tif repository == "" || !domainRegexp.MatchString(domain) || !repositoryRegexp.MatchString(repository) {\n')],
+      why='silent: i > 0 says the separator is present and the part before it, scope[:i], is not empty'),
+ dict(name='benign-scope-contains-slash', expect='silent',
+      edits=[(O, FMT_CUT, '\tif !strings.Contains(scope, "/") {\n\t\treturn fmt.Errorf(errorMessage, scope)\n\t}\n' + FMT_NOFOUND)]),
+ dict(name='scope-found-dropped-repository-unguarded', expect='flagged(scope-format/has-slash)',
+      edits=[(O, FMT_CUT, FMT_NOFOUND), (O, FMT_COND, '\t_, _ = repository, repositoryRegexp\n\tif domain == "" || !domainRegexp.MatchString(domain) {\n')]),
+ dict(name='scope-found-dropped-empty-repository-passes', expect='flagged(scope-format/has-slash)',
+      edits=[(O, FMT_CUT, FMT_NOFOUND), (O, FMT_COND, '\tif domain == "" || !domainRegexp.MatchString(domain) || (repository != "" && !repositoryRegexp.MatchString(repository)) {\n')]),
+ dict(name='scope-guards-dropped-repository-pattern-admits-empty', expect='flagged(scope-format/has-slash)',
+      edits=[(O, FMT_CUT, FMT_NOFOUND), (O, FMT_COND, '\tif !domainRegexp.MatchString(domain) || !repositoryRegexp.MatchString(repository) {\n'),
+             (O, REPO_PAT, 'repositoryRegexp := regexp.MustCompile(`^[a-z0-9]*(?:')]),
+ dict(name='scope-guards-dropped-domain-pattern-admits-empty', expect='flagged(scope-format/domain-non-empty)',
+      edits=[(O, FMT_CUT, FMT_NOFOUND), (O, FMT_COND, '\tif !domainRegexp.MatchString(domain) || !repositoryRegexp.MatchString(repository) {\n'),
+             (O, DOM_PAT, 'domainRegexp := regexp.MustCompile(`^(?:|[a-zA-Z0-9]|')]),
+ dict(name='scope-index-nonzero-only', expect='flagged(scope-format/has-slash)',
+      edits=[(O, FMT_CUT, '\tif strings.Index(scope, "/") == 0 {\n\t\treturn fmt.Errorf(errorMessage, scope)\n\t}\n' + FMT_NOFOUND),
+             (O, FMT_COND, '\t_, _ = repository, repositoryRegexp\n\tif !domainRegexp.MatchString(domain) {\n')]),
+ dict(name='scope-contains-other-separator', expect='flagged(scope-format/has-slash)',
+      edits=[(O, FMT_CUT, '\tif !strings.Contains(scope, ".") {\n\t\treturn fmt.Errorf(errorMessage, scope)\n\t}\n' + FMT_NOFOUND),
+             (O, FMT_COND, '\tif domain == "" || !domainRegexp.MatchString(domain) || (repository != "" && !repositoryRegexp.MatchString(repository)) {\n')]),
+ # the same class at the trust store entries: the name guard subsumes `found`
+ dict(name='benign-store-found-subsumed-by-name-guard', expect='silent', edits=[(T, TS_CUT, TS_NOFOUND)],
+      why='silent for the property: an entry without ":" is cut into (entry, ""), and the certified file-name validator rejects the empty name (the error text differs)'),
+ dict(name='store-found-dropped-empty-name-passes', expect='flagged(store/)',
+      edits=[(T, TS_CUT, TS_NOFOUND), (T, '\t\tif !file.IsValidFileName(namedStore) {', '\t\tif namedStore != "" && !file.IsValidFileName(namedStore) {')]),
+ dict(name='store-found-dropped-name-validator-admits-empty', expect='flagged(file-name/certified)',
+      edits=[(T, TS_CUT, TS_NOFOUND), (F, '`^[a-zA-Z0-9_.-]+$`', '`^[a-zA-Z0-9_.-]*$`')]),
+ dict(name='store-found-dropped-name-of-type-half', expect='flagged(store/)',
+      edits=[(T, TS_CUT, TS_NOFOUND), (T, '\t\tif !file.IsValidFileName(namedStore) {', '\t\t_ = namedStore\n\t\tif !file.IsValidFileName(storeType) {')]),
+]
+VARIANTS += NEW4
